@@ -51,7 +51,7 @@ def run(tier):
     specs = corpus.quick_specs()
     cases = corpus.generate(rep, specs)
     rep.exhaustive = True
-    keep = {"elementwise": 30, "update_at": 6, "get_at": 20, "id": 20, "preserve": 10, "argfind": 10, "reduce": 5, "dot": 2} if tier == "quick" else \
+    keep = {"elementwise": 12, "update_at": 6, "get_at": 20, "id": 20, "preserve": 10, "argfind": 10, "reduce": 5, "dot": 2} if tier == "quick" else \
            {"elementwise": 8, "update_at": 2, "get_at": 5, "id": 5, "preserve": 3, "argfind": 3, "reduce": 1, "dot": 1}
     items = []
     for i, c in enumerate(cases):
@@ -62,6 +62,9 @@ def run(tier):
         if op in ("sort",) and len(c["ins"][0]["brshape"]) != 1:
             op = "flip"
         items.append({"cid": "c%d" % len(items), "case": c, "op": op, "backend": "numpy", "seed": common.seed() * 101 + i})
+        if c["fam"] in ("elementwise", "reduce", "preserve") and i % (2 * keep.get(c["fam"], 1)) == 0:
+            # the same inputs without an output expression: value or SemanticError, but the same one under every seed
+            items.append({"cid": "c%d" % len(items), "case": c, "op": op, "backend": "numpy", "seed": common.seed() * 101 + i, "implicit": True})
         if c["fam"] == "update_at":
             items.append({"cid": "c%d" % len(items), "case": c, "op": "set_at", "backend": "numpy", "seed": common.seed() * 101 + i, "dupcoords": True})
     seeds = [0, 1, 2, 5] if tier == "quick" else list(range(16))
@@ -88,7 +91,7 @@ def run(tier):
                 mine = [o for o in obs if o["cid"] == cid]
                 rep.violation({"kind": tag, "fam": it["case"]["fam"], "op": it["op"], "dupcoords": bool(it.get("dupcoords"))},
                               {"item": it, "observations": mine},
-                              "einx.%s(%r)%s: %s: %s" % (it["op"], DC.desc_of(it["case"]), " with all-equal coordinates" if it.get("dupcoords") else "",
+                              "einx.%s(%r)%s: %s: %s" % (it["op"], DC.desc_of(it["case"]) if not it.get("implicit") else ", ".join("".join(t) for t in it["case"]["intoks"]), " with all-equal coordinates" if it.get("dupcoords") else "",
                                                           "outcome depends on PYTHONHASHSEED / repetition" if tag == "IRREPRODUCIBLE" else "two graph=True requests differ",
                                                           sorted({(o["seed"], o["digest"]) for o in mine})[:6]))
     rep.validated += len(items) - len(bad)
